@@ -453,6 +453,48 @@ def x_rules(p: Project, rep: Report):
         cs_ = rx.charset(inner_[0][1])
         return cs_ is not None and {" ", "\n", "\t", "\r"} <= cs_ and "<" not in cs_
 
+    # the CDATA alternative is tried BEFORE the plain-text alternative: `[^<]+` matches the blanks that may precede
+    # `<![CDATA[`, so with the text alternative first the match ends at the section's `<` and the section is skipped
+    def _branch_with(node, ga, gb):
+        for op_, av_ in node:
+            if op_ is c.BRANCH:
+                alts = list(av_[1])
+                ia = [i_ for i_, a_ in enumerate(alts) if _seq_with_group(a_, ga) is not None or _has_group(a_, ga)]
+                ib = [i_ for i_, a_ in enumerate(alts) if _seq_with_group(a_, gb) is not None or _has_group(a_, gb)]
+                if ia and ib and ia[0] != ib[0]:
+                    return ia[0], ib[0]
+            subs = []
+            if op_ is c.SUBPATTERN:
+                subs = [av_[3]]
+            elif op_ is c.BRANCH:
+                subs = list(av_[1])
+            elif op_ in (c.MAX_REPEAT, c.MIN_REPEAT):
+                subs = [av_[2]]
+            for sub_ in subs:
+                got = _branch_with(sub_, ga, gb)
+                if got is not None:
+                    return got
+        return None
+
+    def _has_group(node, gid):
+        for op_, av_ in node:
+            if op_ is c.SUBPATTERN and av_[0] == gid:
+                return True
+            subs = []
+            if op_ is c.SUBPATTERN:
+                subs = [av_[3]]
+            elif op_ is c.BRANCH:
+                subs = list(av_[1])
+            elif op_ in (c.MAX_REPEAT, c.MIN_REPEAT):
+                subs = [av_[2]]
+            if any(_has_group(sub_, gid) for sub_ in subs):
+                return True
+        return False
+
+    if "text" in r.groups:
+        order = _branch_with(r.tree, r.groups["cdata"], r.groups["text"])
+        if order is not None:
+            rep.check("X-R3", "regex:cdata-alternative-tried-first", order[0] < order[1], "the plain-text alternative precedes the CDATA alternative: `[^<]+` takes the whitespace in front of `<![CDATA[` as the element's text, the section itself is matched by nothing and finditer() skips it - data set off from its start tag by a line break is dropped (or the element stays open and its siblings are re-parented)" if order[0] > order[1] else "", r.where)
     seq_ = _seq_with_group(r.tree, r.groups["cdata"])
     if seq_ is None:
         rep.note("X-R3 undecided: the sequence holding the CDATA group was not found")
@@ -1025,3 +1067,90 @@ def p_r12_feed_refuses_only_what_it_tokenized(p: Project, rep: Report):
     rep.unit("feed_refusals", n)
     if n == 0:
         rep.note("P-R12: feed() raises nothing of its own")
+
+
+def p_r13_no_exit_from_finally(p: Project, rep: Report, modules=(PARSER,)):
+    """a return / break / continue inside `finally:` discards the exception in flight"""
+    rep.rule("P-R13", "no `finally:` block of the parser leaves by return / break / continue: such a statement DISCARDS the exception being propagated - a ParseError raised by feed() for a second top-level element or a stray end tag is swallowed by `finally: ...; return self._root` and the tree built so far is handed back as if the document were well-formed")
+    n = 0
+    for modname in modules:
+        m = p.module(modname)
+        for qn, cls, fn in m.functions():
+            for t in ast.walk(fn):
+                if not isinstance(t, ast.Try) or not t.finalbody:
+                    continue
+                n += 1
+
+                def exits(stmts, in_loop=False):
+                    for st in stmts:
+                        if isinstance(st, ast.Return):
+                            return st
+                        if isinstance(st, (ast.Break, ast.Continue)) and not in_loop:
+                            return st
+                        if isinstance(st, (ast.FunctionDef, ast.ClassDef, ast.Lambda)):
+                            continue
+                        for fld in ("body", "orelse", "finalbody"):
+                            sub = getattr(st, fld, None)
+                            if isinstance(sub, list) and sub and isinstance(sub[0], ast.stmt):
+                                r = exits(sub, in_loop or isinstance(st, (ast.For, ast.While)))
+                                if r is not None:
+                                    return r
+                        for h in getattr(st, "handlers", []) or []:
+                            r = exits(h.body, in_loop)
+                            if r is not None:
+                                return r
+                    return None
+
+                bad = exits(t.finalbody)
+                rep.check("P-R13", f"{qn}:finally-does-not-exit", bad is None, f"{qn} leaves its `finally:` block by `{type(bad).__name__.lower()}` (line {bad.lineno}): an exception raised in the try body - the ParseError for improperly nested or trailing markup - is discarded and the caller receives a tree" if bad is not None else "", f"{m.relpath}:{(bad or t).lineno}")
+    rep.unit("try_finally_blocks", n)
+    rep.check("P-R13", "parser:no-exit-from-finally", True, "", f"{n} try/finally blocks in {', '.join(modules)}")
+
+
+def p_r14_feed_dispatches_the_current_match(p: Project, rep: Report):
+    """what is dispatched for a match is computed from that match"""
+    from .fresh import _is_store
+
+    rep.rule("P-R14", "what feed() hands to the dispatcher for a match is computed from THAT match: no argument of _feedmatch (locals expanded, `*token` unpacked to its definition) is read out of a container that outlives the iteration - an attribute of the builder or a module-level table filled while feeding.  A memo of groomed tokens keyed by some of the groups answers a later match with an earlier one's data whenever the key leaves a group out (two CDATA leaves of one tag share (tag, None, None): the second gets the first's value)")
+    ci = builder(p)
+    fd0 = ci.own_func("feed")
+    if fd0 is None:
+        raise AnalysisError("TreeBuilder.feed not found")
+    from .flat import flat
+
+    fd = flat(p, PARSER, fd0, ci, keep=("_feedmatch", "_groomstring", "_start"))
+    ex = Expander(fd)
+    defs = local_defs(fd)
+    calls = [c_ for c_ in ast.walk(fd) if isinstance(c_, ast.Call) and text(c_.func) == "self._feedmatch"]
+    if not calls:
+        rep.note("P-R14 undecided: feed() does not call self._feedmatch")
+        return
+
+    def stored_source(e, depth=6):
+        """the first sub-expression that reads a store outliving the iteration, following locals (all definitions)"""
+        if depth <= 0:
+            return None
+        for x in ast.walk(e):
+            if isinstance(x, (ast.Subscript, ast.Call)) and _is_store(p, PARSER, x) and not (isinstance(x, ast.Call) and text(x.func).startswith("self._groomstring")) and not text(x).startswith("self.regex"):
+                return text(x)
+            if isinstance(x, ast.Name) and x.id in defs:
+                for d in defs[x.id]:
+                    v = d.value if isinstance(getattr(d, "value", None), ast.AST) else None
+                    if v is None or v is e:
+                        continue
+                    # an alias of a stored container: tokens = self._tokens ; token = tokens.get(key)
+                    if isinstance(v, ast.Attribute) and isinstance(v.value, ast.Name) and v.value.id in ("self", "cls") and v.attr not in ("regex",):
+                        uses = [y for y in ast.walk(e) if isinstance(y, (ast.Subscript, ast.Call)) and any(isinstance(z, ast.Name) and z.id == x.id for z in ast.walk(y))]
+                        if uses:
+                            return f"{x.id} (= {text(v)})"
+                    r = stored_source(v, depth - 1)
+                    if r is not None:
+                        return r
+        return None
+
+    for c_ in calls:
+        bad = None
+        for a in list(c_.args) + [k.value for k in c_.keywords]:
+            a = a.value if isinstance(a, ast.Starred) else a
+            bad = bad or stored_source(a)
+        rep.check("P-R14", "feed:dispatches-what-this-match-holds", bad is None, f"an argument of _feedmatch is read from {bad}: a value kept from an earlier match - a token memo whose key omits one of the groups (the CDATA data, say) hands a later element the earlier element's data" if bad else "", ploc(p, c_))
